@@ -262,3 +262,34 @@ def run(prog: Program, rep: Report, tier: str) -> None:
                 rest = disp - cadv * NF.atom(vel)
                 other_vel = "Vadv" if vel == "Uadv" else "Uadv"
                 rep.check("R01.2", fi.qual, f"{label}: no cross-axis or constant term", other_vel not in rest.atoms() and (diff or rest.is_zero()), what_bad=f"unexpected displacement terms {rest}", what_ok="none" if not diff else f"diffusive part {rest}", loc=fi.loc())
+
+
+from ..selftest import Mut  # noqa: E402
+
+T = "ladim/tracker.py"
+A = "ladim/analytical.py"
+AUDIT = [
+    Mut("rkstep-returns-inputs", T, "    return Xp, Yp\n\n\nRKstep = RKstep1", "    return X, Y\n\n\nRKstep = RKstep1", rule="R01.1"),
+    Mut("rk4-weight", T, "(U1 + 2 * U2 + 2 * U3 + U4) / 6.0", "(U1 + 2 * U2 + U3 + U4) / 5.0", rule="R01.1"),
+    Mut("rk4-stage3-frac", T, "X3, Y3 = RKstep(X, Y, U3, V3, 1.0, dtdx, dtdy)", "X3, Y3 = RKstep(X, Y, U3, V3, 0.5, dtdx, dtdy)", rule="R01.1"),
+    Mut("rk4-stage4-time", T, "U4, V4 = force.velocity(X3, Y3, Z, fractional_step=1.0)", "U4, V4 = force.velocity(X3, Y3, Z, fractional_step=0.5)", rule="R01.1"),
+    Mut("rk4-stage-from-wrong-velocity", T, "X2, Y2 = RKstep(X, Y, U2, V2, 0.5, dtdx, dtdy)", "X2, Y2 = RKstep(X, Y, U1, V1, 0.5, dtdx, dtdy)", rule="R01.1"),
+    Mut("rk4-stage-chained", T, "X2, Y2 = RKstep(X, Y, U2, V2, 0.5, dtdx, dtdy)", "X2, Y2 = RKstep(X1, Y1, U2, V2, 0.5, dtdx, dtdy)", rule="R01.1"),
+    Mut("rk2-drop-fraction", T, "return force.velocity(X1, Y1, Z, fractional_step=0.5)", "return force.velocity(X1, Y1, Z)", rule="R01.1"),
+    Mut("rk2-clip-inputs", T, "clip(X1, Y1, self.xmin, self.xmax, self.ymin, self.ymax)", "clip(X, Y, self.xmin, self.xmax, self.ymin, self.ymax)", rule="R01.3"),
+    Mut("rkstep-y-uses-dtdx", T, "Yp[i] = Y[i] + frac * V[i] * dtdy[i]", "Yp[i] = Y[i] + frac * V[i] * dtdx[i]", rule="R01.1"),
+    Mut("rk-dtdy-from-dx", T, "        dtdy = dt / self.dy\n\n        U, V", "        dtdy = dt / self.dx\n\n        U, V", rule="R01.1"),
+    Mut("update-y-uses-dx", T, "Y1 = Y + V * self.dt / self.dy", "Y1 = Y + V * self.dt / self.dx", rule="R01.2"),
+    Mut("update-drop-adv", T, "            U += Uadv\n", "            U += 0.5 * Uadv\n", rule="R01.2"),
+    Mut("update-swap-uv", T, "            V += Vadv\n", "            V += Uadv\n", rule="R01.2"),
+    Mut("helper4-stage", A, "x2, y2 = x0 + 0.5 * dt * u1, y0 + 0.5 * dt * v1", "x2, y2 = x0 + dt * u1, y0 + dt * v1", rule="R01.1"),
+    Mut("helper4-weight", A, "(v0 + 2 * v1 + 2 * v2 + v3) / 6", "(v0 + 2 * v1 + v2 + 2 * v3) / 6", rule="R01.1"),
+    Mut("helper2-m", A, "m = 1.0 / (2 * s)", "m = 1.0 / s", rule="R01.1"),
+    Mut("ef-depth", T, "        U, V = force.velocity(X, Y, Z)\n\n        return U, V", "        U, V = force.velocity(X, Y, 0 * Z)\n\n        return U, V", rule="R01.1"),
+    # behaviour-preserving edits
+    Mut("benign-rk2-heun", T, "        X1, Y1 = RKstep(X, Y, U, V, 0.5, dtdx, dtdy)\n        clip(X1, Y1, self.xmin, self.xmax, self.ymin, self.ymax)\n\n        return force.velocity(X1, Y1, Z, fractional_step=0.5)",
+        "        X1, Y1 = RKstep(X, Y, U, V, 1.0, dtdx, dtdy)\n        clip(X1, Y1, self.xmin, self.xmax, self.ymin, self.ymax)\n\n        U1, V1 = force.velocity(X1, Y1, Z, fractional_step=1.0)\n        return 0.5 * (U + U1), 0.5 * (V + V1)", expect="silent"),
+    Mut("benign-precompute", T, "        X1 = X + U * self.dt / self.dx\n", "        dtdx = self.dt / self.dx\n        X1 = X + dtdx * U\n", expect="silent"),
+    Mut("benign-rk4avg-reorder", T, "(U1 + 2 * U2 + 2 * U3 + U4) / 6.0", "(U4 + U1) / 6.0 + (U2 + U3) / 3.0", expect="silent"),
+    Mut("benign-helper-rename", A, "    x0, y0 = state.X, state.Y\n    u0, v0 = sample_func(x0, y0)\n    x1, y1 = x0 + 0.5 * dt * u0, y0 + 0.5 * dt * v0", "    xa, ya = state.X, state.Y\n    x0, y0 = xa, ya\n    u0, v0 = sample_func(xa, ya)\n    x1, y1 = x0 + dt * u0 / 2, y0 + dt * v0 / 2", expect="silent"),
+]
